@@ -172,7 +172,12 @@ func dischargeAll(items []OblResult, dir string, timeoutS, seed, par int) {
 		go func(it *OblResult, idx int) {
 			defer wg.Done()
 			defer func() { <-sem }()
-			txt := it.VC.emit(it.Obl, false)
+			var txt string
+			if it.Obl.Cover || os.Getenv("GOVC_NOSLICE") != "" {
+				txt = it.VC.emit(it.Obl, false)
+			} else {
+				txt = it.VC.emitSliced(it.Obl, false)
+			}
 			file := filepath.Join(dir, fmt.Sprintf("%04d_%s.smt2", idx, truncate(sanitize(it.Obl.Name), 120)))
 			os.WriteFile(file, []byte(txt), 0o644)
 			t := timeoutS
